@@ -133,6 +133,45 @@ pub fn run(ctx: &mut Ctx) {
         // through var
         ctx.check("substr:V", &json!({"substr": [{"var": "s"}, {"var": "i"}, {"var": "l"}]}), &json!({"s": s, "i": -2, "l": 1}));
     }
+    // size probes: long mixed strings with start / length around every boundary class; cat with many operands
+    for n in al::size_classes(ctx.tier_thorough) {
+        if !ctx.mine() {
+            continue;
+        }
+        let st: String = (0..n).map(|i| ['a', 'é', '水', '😀', 'b', 'c', 'd'][i % 7]).collect();
+        let nn = n as i64;
+        let pts = [0i64, 1, 2, nn / 2, nn - 2, nn - 1, nn, nn + 1, -1, -2, -nn / 2, -nn + 1, -nn, -nn - 1];
+        for i in pts {
+            ctx.edge();
+            let r = json!({"substr": [st, i]});
+            let o = ctx.check("substr:size-probe:2", &r, &null);
+            for l in pts {
+                ctx.check("substr:size-probe:3", &json!({"substr": [st, i, l]}), &null);
+            }
+            if i >= 0 {
+                let o1 = ctx.exec(&json!({"substr": [st, 0, i]}), &null);
+                if let (Some(Value::String(p)), Some(Value::String(q))) = (o1.ok(), o.ok()) {
+                    if format!("{}{}", p, q) != st {
+                        ctx.law_fail("law:substr-partition", &r, &null, format!("{:?}", st), format!("{:?} ++ {:?}", p, q));
+                    }
+                }
+            }
+        }
+        if release {
+            let ops_: Vec<Value> = (0..n).map(|i| match i % 6 { 0 => json!(format!("s{}", i)), 1 => json!(i), 2 => json!(null), 3 => json!([i, null, [i]]), 4 => json!({}), _ => json!(i as f64 + 0.5) }).collect();
+            let r = op("cat", ops_.clone());
+            let o = ctx.check("cat:size-probe", &r, &null);
+            if let Some(Value::String(whole)) = o.ok() {
+                for cut in [1usize, n / 2, n - 1] {
+                    let r2 = json!({"cat": [{"cat": ops_[..cut]}, {"cat": ops_[cut..]}]});
+                    let o2 = ctx.exec(&r2, &null);
+                    if o2.ok() != Some(&Value::String(whole.clone())) {
+                        ctx.law_fail("law:cat-split", &r2, &null, format!("{} chars", whole.len()), o2.show());
+                    }
+                }
+            }
+        }
+    }
     // other operand kinds (unspecified -> totality only) and a long string
     if ctx.mine() {
         let long: String = "水é".repeat(2000);
